@@ -33,6 +33,7 @@ type Spec struct {
 	Reuse          bool               `json:"reuse,omitempty"`
 	RootFragRefs   []string           `json:"root_frag_refs,omitempty"`   // fragment references planted in the root at positions the loader visits whose fragment may not exist in the target
 	ThenResolveOff bool               `json:"then_resolve_off,omitempty"` // afterwards, on the same Loader: switch turned off, root unmarshalled by the caller, ResolveRefsIn(doc, location)
+	ElemFragRefs   bool               `json:"elem_frag_refs,omitempty"`   // bare element files may hold fragment-only references ("#/components/...")
 	ThenOther      bool               `json:"then_other,omitempty"`       // switch off: another document of the layout is loaded afterwards as a root of its own on the same Loader
 	ThenMemory     any                `json:"then_memory,omitempty"`      // a document without external references loaded from memory afterwards on the same Loader
 	MapSeed        uint64             `json:"map_seed,omitempty"`         // 0 = sorted map iteration inside the loader; else seeded permutation
@@ -214,6 +215,11 @@ func (g *gen) slot(kind string, depth int) any {
 			}
 			return map[string]any{"$ref": "#/components/" + pl + "/T" + kind}
 		}
+		if pl, ok := plural[kind]; ok && strings.HasPrefix(g.s.Files[g.cur].Kind, "single:") && g.s.ElemFragRefs && g.r.Chance(1, 2) {
+			// a bare element file that names a component by fragment only (of "the document": shared
+			// parameter files written against the root's components do that)
+			return map[string]any{"$ref": "#/components/" + pl + "/T" + kind}
+		}
 	}
 	return g.element(kind, depth)
 }
@@ -371,6 +377,7 @@ func Gen(seed uint64, prop, tier string) *Spec {
 			s.RootUser = "ci:s3cret"
 		}
 	}
+	s.ElemFragRefs = r.Chance(1, 4)
 	s.Reader = simfw.Pick(r, []string{"func", "func", "default"})
 	s.External = r.Chance(3, 5)
 	s.Reuse = r.Chance(1, 6)
